@@ -60,14 +60,15 @@ Tag(S, kind) == {c \o "/" \o kind : c \in S}
 
 \* Whether a Reply about the other kind extended this kind's binding too is the server's choice (one lease record,
 \* one lifetime - or the record was already ended because it had expired): its own lease table after the step
-\* tells which; the obligations then follow from that choice.
-PartAt(e, kind, g, n) ==
+\* tells which (the binding is listed with a full lifetime ahead, rem = leaseticks); the obligations then follow
+\* from that choice.
+PartAt(e, kind, g, n, lt) ==
   LET p == Part(e, kind) IN
-  IF p.op = "REFRESH" /\ (p.c = 0 \/ NodePart(n, kind).lease[p.c] # g.bound[p.c].ip \/ NodePart(n, kind).expired[p.c])
+  IF p.op = "REFRESH" /\ (p.c = 0 \/ NodePart(n, kind).lease[p.c] # g.bound[p.c].ip \/ n.rem[p.c] # lt)
     THEN [p EXCEPT !.op = "INFORM", !.skipped = TRUE] ELSE p
 
 AllClauses(i, a, b, e, n) ==
-  LET ea == PartAt(e, "na", a, n)  ep == PartAt(e, "pd", b, n)
+  LET ea == PartAt(e, "na", a, n, Cfg(i).leaseticks)  ep == PartAt(e, "pd", b, n, Cfg(i).leaseticks)
       a2 == Step(CfgNA(i), a, ea)  b2 == Step(CfgPD(i), b, ep)
   IN      EdgeClauses(CfgNA(i), a, ea) \cup NodeClauses(CfgNA(i), a2, NodePart(n, "na"))
      \cup EdgeClauses(CfgPD(i), b, ep) \cup NodeClauses(CfgPD(i), b2, NodePart(n, "pd"))
@@ -86,8 +87,8 @@ Next == /\ viol = {}
              LET ed == EdgesOf(sys, node)[k]
                  e  == ed.ev
              IN /\ node' = ed.to
-                /\ gna' = Step(CfgNA(sys), gna, PartAt(e, "na", gna, NodeOf(sys, ed.to)))
-                /\ gpd' = Step(CfgPD(sys), gpd, PartAt(e, "pd", gpd, NodeOf(sys, ed.to)))
+                /\ gna' = Step(CfgNA(sys), gna, PartAt(e, "na", gna, NodeOf(sys, ed.to), Cfg(sys).leaseticks))
+                /\ gpd' = Step(CfgPD(sys), gpd, PartAt(e, "pd", gpd, NodeOf(sys, ed.to), Cfg(sys).leaseticks))
                 /\ lastop' = e.op
                 /\ viol' = AllClauses(sys, gna, gpd, e, NodeOf(sys, ed.to)) \cap Watch
                 /\ path' = Append(path, ed.id)
